@@ -47,7 +47,7 @@ def run_plug(chk, fns, decls, nplugs, pe, si, se):
         return ctx.ret(Ref(ctx.st.alloc(Agg(f, 'World'))))
     def m_compat(ctx):
         a = to_atom(ctx.eng, ctx.deref(ctx.args[0])).t; b = to_atom(ctx.eng, ctx.deref(ctx.args[1])).t
-        return ctx.ret(AN.same_track(a, b))
+        return ctx.ret(Or(a == b, AN.same_track(a, b)))      # the contract of are_semver_compatible (C15): identical, or same semver track
     def m_checker_new(ctx): return ctx.ret(Opaque('checker'))
     def tyid(ctx, v):
         v = ctx.deref(v)
@@ -192,39 +192,55 @@ def check_config(chk, fns, decls, nplugs, pe, si, se):
             bads.append((f'err-{cls}', o, And(o.cond(), Not(okc))))
     return eng, outs, socket, plugs, base, bads
 
-def realise(m, socket, plugs):
-    """concrete socket / plug components for a model: names rendered from their identities, `<:` realised by equal / different func signatures"""
+def realise(m, socket, plugs, offers=None):
+    """concrete socket / plug components for a model: names rendered from their identities; every item is an instance and `<:` is
+    realised by the member sets (equal / wider / narrower / unrelated), so both directions of the predicate can be told apart.
+    -> (native case, expectation computed from the model with the documented matching)"""
     seen = {}
+    ev = lambda c: z3.is_true(m.eval(c, model_completion=True))
     def nm(k): return AN.render(m, atom_of(k), seen)
-    FUNC = '(core module $m (func (export "f"))) (core instance $i (instantiate $m))'
-    def sig(n): return '(func' + ''.join(' (param "p%d" u8)' % i for i in range(n)) + ')'
-    def lift(idx, n, name):
-        # a lifted function with n u8 params: core func with n i32 params
-        cparams = ' '.join('(param i32)' for _ in range(n)); params = ''.join(' (param "p%d" u8)' % i for i in range(n))
-        return (f'(core module $m{idx} (func (export "f") {cparams})) (core instance $i{idx} (instantiate $m{idx})) '
-                f'(func $f{idx}{params} (canon lift (core func $i{idx} "f"))) (export "{name}" (func $f{idx}))')
-    simp = [(nm(k), j) for j, (k, t) in enumerate(socket.imp)]
-    socket_wat = '(component ' + ' '.join(f'(import "{n}" {sig(j)})' for n, j in simp) + ' ' + ' '.join(lift(100 + i, 0, nm(k)) for i, (k, t) in enumerate(socket.exp)) + ')'
+    CORE = '(core module $m (func (export "f"))) (core instance $ci (instantiate $m)) (func $f (canon lift (core func $ci "f")))'
+    def inst_ty(members): return '(instance ' + ' '.join(f'(export "{x}" (func))' for x in members) + ')'
+    def inst_def(tag, members): return f'(instance ${tag} ' + ' '.join(f'(export "{x}" (func $f))' for x in members) + ')'
+    sn = [atom_of(k_) for k_, _ in socket.imp]; styp = [atom_of(t) for _, t in socket.imp]
+    simp = [nm(k) for k, t in socket.imp]
+    socket_wat = ('(component ' + ' '.join(f'(import "{n}" {inst_ty([f"m{j}-a"])})' for j, n in enumerate(simp)) + ' ' + CORE + ' '
+                  + ' '.join(f'(export "{nm(k)}" (func $f))' for i, (k, t) in enumerate(socket.exp)) + ')')
     plug_wats = []
-    styp = [atom_of(t) for _, t in socket.imp]
     for p, pw in enumerate(plugs):
-        parts = []
+        parts = [CORE]
         for e, (k, t) in enumerate(pw.exp):
             n = nm(k); ty = atom_of(t)
-            # candidate import (reference rule on concrete names is recomputed natively; here only the signature choice matters)
-            arity = 7 + e
-            ev = lambda c: z3.is_true(m.eval(c, model_completion=True))
-            sn = [atom_of(k_) for k_, _ in socket.imp]
             exact = [j for j in range(len(sn)) if ev(sn[j] == atom_of(k))]
             compat = [j for j in range(len(sn)) if ev(AN.same_track(atom_of(k), sn[j]))]
             cand = exact[0] if exact else (compat[0] if compat else None)
-            if cand is not None and ev(SUB(ty, styp[cand])): arity = cand
-            parts.append(lift(e, arity, n))
+            members = [f'zz{p}{e}']
+            if cand is not None:
+                fw = ev(SUB(ty, styp[cand])); bw = ev(SUB(styp[cand], ty))
+                members = [f'm{cand}-a'] if fw and bw else [f'm{cand}-a', f'm{cand}-b'] if fw else [] if bw else [f'zz{p}{e}']
+            parts.append(inst_def(f'x{e}', members) + f' (export "{n}" (instance $x{e}))')
         plug_wats.append('(component ' + ' '.join(parts) + ')')
-    return {'op': 'plug', 'socket': socket_wat, 'plugs': plug_wats}
+    case = {'op': 'plug', 'socket': socket_wat, 'plugs': plug_wats}
+    expect = None
+    if offers is not None:
+        on = [(p, e, j) for (p, e, j), c in offers.items() if ev(c)]
+        per_import = {}
+        for p, e, j in on: per_import.setdefault(j, []).append((p, e))
+        if not on: expect = {'result': 'no-plug'}
+        elif any(len(v) > 1 for v in per_import.values()): expect = {'result': 'graph-error'}
+        else:
+            expect = {'result': 'ok', 'socket_args': {simp[j]: [f't:plug{p}', nm(plugs[p].exp[e][0])] for j, [(p, e)] in per_import.items()},
+                      'instantiated_plugs': sorted({f't:plug{p}' for p, e, j in on}), 'exports': sorted(nm(k) for k, t in socket.exp)}
+    return case, expect
 
-def reference_concrete(case_names):
-    pass
+def agrees(nat, expect):
+    """does the native outcome match the documented one?"""
+    if expect is None or 'result' not in nat: return None
+    res = nat['result'].split(':')[0]
+    if res != expect['result']: return False
+    if res != 'ok': return True
+    return (nat.get('socket_args') == expect['socket_args'] and sorted(x for x in nat.get('instantiated', []) if x != 't:socket') == expect['instantiated_plugs']
+            and sorted(nat.get('exports', {})) == expect['exports'] and all(v == ['t:socket', k] for k, v in nat.get('exports', {}).items()))
 
 def part_plug(chk, fns, decls, configs):
     for (nplugs, pe, si, se) in configs:
@@ -234,10 +250,19 @@ def part_plug(chk, fns, decls, configs):
                               'NoPlugHappened iff nothing offered, conflicts fail', base + [Or([c for _, _, c in bads] + [BoolVal(False)])], base=base)
         if r == 'sat':
             hit = [(k, o) for k, o, c in bads if z3.is_true(m.eval(c, model_completion=True))]
-            case = realise(m, socket, plugs); nat = chk.native(case)
+            # the graph calls are assumed to succeed in the realisation (a failing alias / export cannot be built from components)
+            okall = [ALIAS_OK(z3.IntVal(i), n) for i in range(len(plugs) + 1) for n in socket.names() + [x for pw in plugs for x in pw.names()]] + [EXPORT_OK(atom_of(k)) for k, _ in socket.exp]
+            r3, m3 = chk.solve(f'plug ({label}): counterexample with succeeding graph calls', base + [Or([c for _, _, c in bads])] + okall)
+            if r3 == 'sat': m = m3; hit = [(k, o) for k, o, c in bads if z3.is_true(m.eval(c, model_completion=True))]
+            offers = reference(socket, plugs)
+            case, expect = realise(m, socket, plugs, offers); nat = chk.native(case)
             kind = hit[0][0] if hit else '?'
-            chk.finding('plug-' + ('error-class' if kind.startswith('err') else 'wiring' if kind == 'ok-but-wrong' else kind),
-                        f'plug ({label}) outcome `{kind}` contradicts the documented matching; realisation replayed natively: {json.dumps(nat)[:700]}', case)
+            ag = agrees(nat, expect)
+            if ag is False:
+                chk.finding('plug-' + ('error-class' if kind.startswith('err') else 'wiring' if kind == 'ok-but-wrong' else kind),
+                            f'plug ({label}): documented outcome {json.dumps(expect)[:400]}, the real plug() gives {json.dumps({k: nat.get(k) for k in ("result", "socket_args", "instantiated", "exports")})[:500]}', case)
+            else:
+                raise Inconclusive(f'plug ({label}): symbolic counterexample (outcome `{kind}`) does not reproduce natively: expected {expect}, native {json.dumps(nat)[:400]}; case {json.dumps(case)[:600]}')
         # witnesses: one Ok and one error path, realised and replayed; the native wiring must agree with the events of the symbolic path
         for want in ('Ok', 'Err'):
             for o in outs:
@@ -245,11 +270,11 @@ def part_plug(chk, fns, decls, configs):
                 r2, m2 = chk.solve('plug/witness', base + [o.cond()] + [ALIAS_OK(z3.IntVal(i), n) for i in range(len(plugs) + 1) for n in socket.names() + [x for pw in plugs for x in pw.names()]]
                                    + [EXPORT_OK(atom_of(k)) for k, _ in socket.exp])
                 if r2 != 'sat': continue
-                case = realise(m2, socket, plugs); nat = chk.native(case)
+                case, expect = realise(m2, socket, plugs, reference(socket, plugs)); nat = chk.native(case)
                 if 'result' not in nat: raise Inconclusive(f'plug witness could not be replayed: {nat}')
                 got_ok = nat['result'] == 'ok'
                 chk.sample({'fn': 'plug', 'config': label, 'symbolic': want, 'native': nat['result'], 'socket_args': nat.get('socket_args'), 'valid': nat.get('valid')})
-                if got_ok != (want == 'Ok'): raise Inconclusive(f'plug witness: symbolic path says {want}, native says {nat["result"]} for {case}')
+                if got_ok != (want == 'Ok') or agrees(nat, expect) is False: raise Inconclusive(f'plug witness: symbolic path says {want} / documented {expect}, native says {json.dumps(nat)[:400]} for {case}')
                 if got_ok and nat.get('valid') is not True:
                     chk.finding('plug-result-invalid', f'a successful plug does not encode to a valid component: {nat}', case)
                 break
